@@ -671,3 +671,70 @@ func replayF3d(withStacks bool) {
 	sl.add("WriteGate released: receiver takes the second container -> keepKeyFreshReceiving -> CreateMessageInitiation -> staticIdentity.RLock")
 	finishReplay("f3d", sl, []chan struct{}{d0, d1}, 6*time.Second, withStacks)
 }
+
+// scenarioTunFail — a fatal TUN read error under a running device (the interface deleted):
+// RoutineReadFromTUN starts Close.  On the reference tree device.Wait() fires, every later
+// call returns, the bind is closed and every goroutine of the device terminates.
+func scenarioTunFail(withStacks bool) {
+	sl := &stepLog{}
+	a := cosim.NewPeer("A", "192.0.2.7:5555", "10.0.0.2/32")
+	w, err := cosim.NewWorld(cosim.Config{Up: true}, true, a)
+	if err != nil {
+		panic(err)
+	}
+	if _, _, _, err := w.RefInitiates(a, a.Addr, ref.Tai64n(time.Now())); err != nil {
+		panic(err)
+	}
+	inner := ref.Pad(ref.IPv4([4]byte{10, 0, 0, 2}, [4]byte{10, 9, 9, 9}, 40, 2))
+	for i := 0; i < 5; i++ {
+		w.Bind.Inject(sim.Dgram{From: a.Addr, Data: a.Session().Next(inner)})
+		w.Tun.Inject(ref.IPv4([4]byte{10, 9, 9, 9}, [4]byte{10, 0, 0, 2}, 64, byte(i)))
+	}
+	w.Settle()
+	sl.add("device up, session with A, traffic both ways")
+	w.Tun.FailRead(errors.New("file descriptor in bad state"))
+	d0 := make(chan struct{})
+	go func() { defer close(d0); <-w.Dev.Wait() }()
+	sl.add("tun.Read returned a fatal error; waiting for device.Wait()")
+	if !waitAll([]chan struct{}{d0}, 8*time.Second) {
+		// later calls on the wedged device, to show what else hangs
+		go w.Dev.IpcGet()
+		go w.Dev.Up()
+		time.Sleep(200 * time.Millisecond)
+		finishReplay("tunfail", sl, []chan struct{}{d0}, time.Second, withStacks)
+	}
+	sl.add("device.Wait() fired, state=%d", w.Dev.VerifDeviceState())
+	d1 := make(chan struct{})
+	go func() {
+		defer close(d1)
+		w.Dev.Up()
+		w.Dev.Down()
+		w.Dev.IpcSet("listen_port=1001\n")
+		w.Dev.IpcSet(cosim.PeerConfig(a, true))
+		w.Dev.IpcGet()
+		w.Dev.BindUpdate()
+		w.Dev.Close()
+	}()
+	if !waitAll([]chan struct{}{d1}, 8*time.Second) {
+		finishReplay("tunfail", sl, []chan struct{}{d1}, time.Second, withStacks)
+	}
+	sl.add("Up, Down, IpcSet x2, IpcGet, BindUpdate, Close all returned")
+	if w.Dev.VerifDeviceState() != 2 {
+		scenarioResult("tunfail", sl, "not-closed-after-tun-read-error", "device state is not closed after a fatal TUN read error")
+	}
+	if w.Bind.IsOpen() {
+		scenarioResult("tunfail", sl, "bind-open-after-tun-read-error", "bind still open after the device closed itself")
+	}
+	deadline := time.Now().Add(10 * time.Second)
+	for {
+		n, left := deviceCount()
+		if n == 0 {
+			break
+		}
+		if time.Now().After(deadline) {
+			scenarioResult("tunfail", sl, "goroutine-leak-"+topDevice(left[0]), fmt.Sprintf("%d device goroutines alive 10 s after the device closed itself", n))
+		}
+		time.Sleep(5 * time.Millisecond)
+	}
+	scenarioResult("tunfail", sl, "", "")
+}
